@@ -475,17 +475,36 @@ func runC15(c *ev.Ctx) {
 	if dir == "" {
 		dir = os.TempDir()
 	}
-	for k, sz := range []int{0, 1, 7, 125000, 200001} {
-		data := gen.NewRng(gen.Mix(seed, 151, uint64(sz))).Bytes(sz)
+	// contents that look like something else to a format-sniffing loader: byte-order marks, archive /
+	// script magic numbers, ASCII digits and line ends, NULs; the loader must treat every byte as data
+	magic := [][]byte{{0xEF, 0xBB, 0xBF}, {0xFF, 0xFE}, {0xFE, 0xFF}, {0xFF, 0xFE, 0, 0}, {0x1F, 0x8B, 8}, []byte("PK\x03\x04"), []byte("#!/bin/sh\n"), []byte("0101\n1010\r\n"),
+		[]byte(" \t\n"), {0, 0, 0, 0}, []byte("\x89PNG\r\n\x1a\n"), []byte("BZh9"), []byte("\xFD7zXZ\x00"), []byte("-----BEGIN"), {0x0A}, {0x0D, 0x0A}, {0x1A}, {0x04}}
+	type fcase struct {
+		data []byte
+		what string
+	}
+	var fcases []fcase
+	for _, sz := range []int{0, 1, 7, 125000, 200001} {
+		fcases = append(fcases, fcase{gen.NewRng(gen.Mix(seed, 151, uint64(sz))).Bytes(sz), fmt.Sprintf("random %d bytes", sz)})
+	}
+	for mi, mg := range magic {
+		body := gen.NewRng(gen.Mix(seed, 152, uint64(mi))).Bytes(2500)
+		fcases = append(fcases, fcase{append(append([]byte{}, mg...), body...), fmt.Sprintf("prefix %q + 2500 random bytes", mg)})
+		fcases = append(fcases, fcase{append(append([]byte{}, body...), mg...), fmt.Sprintf("2500 random bytes + suffix %q", mg)})
+		fcases = append(fcases, fcase{append([]byte{}, mg...), fmt.Sprintf("only %q", mg)})
+	}
+	for k, fc := range fcases {
+		data := fc.data
+		sz := len(data)
 		fn := filepath.Join(dir, fmt.Sprintf("c15-%d.bin", k))
 		_ = os.WriteFile(fn, data, 0o644)
 		var got []bool
 		p, m := guard(func() { got = R.ReadGroup(fn) })
 		os.Remove(fn)
-		c.Eval(ev.HashStr(fmt.Sprintf("readgroup%d", sz)), true)
+		c.Eval(ev.HashStr("readgroup"+fc.what), true)
 		c.Count("file_loader_cases", 1)
 		if p {
-			c.Violation(fmt.Sprintf("ReadGroup:size=%d:panic", sz), m, "readgroup", sz)
+			c.Violation(fmt.Sprintf("ReadGroup:%s:panic", fc.what), m, "readgroup", sz)
 			continue
 		}
 		want := gen.Unpack(data)
@@ -498,7 +517,7 @@ func runC15(c *ev.Ctx) {
 			}
 		}
 		if !ok {
-			c.Violation(fmt.Sprintf("ReadGroup:size=%d", sz), "file loader / B2bitArr disagree with MSB-first expansion of the file's bytes", "readgroup", sz)
+			c.Violation("ReadGroup:"+fc.what, fmt.Sprintf("file loader / B2bitArr disagree with MSB-first expansion of the file's bytes (%d bits loaded, %d expected)", len(got), len(want)), "readgroup", sz)
 		}
 	}
 	for b := 0; b < 256; b++ {
